@@ -165,3 +165,41 @@ PROPS['C01'] = dict(
         O('C01.read_calls', 'harness.c01_lifecycle', 'read_calls', 250, 600, 'GetTrial/ListTrials/GetStudy vs reference model', _C01_BOUND),
         O('C01.study_calls', 'harness.c01_lifecycle', 'study_calls', 200, 600, 'SetStudyState/DeleteStudy vs reference model', _C01_BOUND),
     ])
+
+_C02_BOUND = ('N in 1..3, own ACTIVE 0..2, other-worker ACTIVE 0..1, REQUESTED 0..2, completed 0..1, 3 id orders, '
+              'Pythia delivery = asked + (-2..+2); then the same call repeated')
+PROPS['C02'] = dict(
+    level='model_checking',
+    encoded=['VizierServicer.SuggestTrials/GetOperation', 'NestedDictRAMDataStore.*', 'SuggestConverter',
+             'TrialConverter.to_protos', 'StudyConfig.from_proto'],
+    bounds=_C02_BOUND,
+    outside='more than 3 own / 3 requested trials; SQL datastore (C07); vizier_client polling loop',
+    obligations=[
+        O('C02.suggest_order%d' % k, 'harness.c02_suggest', 'suggest_step_order%d' % k, 300, 900,
+          'exactly N (or all delivered), own ACTIVE first then REQUESTED then new, fresh increasing ids, surplus '
+          'queued REQUESTED, other workers untouched, Pythia asked iff needed; repeated call is sticky', _C02_BOUND)
+        for k in range(3)
+    ] + [
+        O('C02.suggest_big', 'harness.c02_suggest', 'suggest_step_big', None, 1500, 'same, larger counts',
+          'N in 1..6, own 0..3, REQUESTED 0..3, delivery offset -1..+3'),
+    ])
+
+_C06_BOUND = ('fault kind in {RuntimeError, grpc.RpcError, ValueError, KeyError, custom Exception, mis-delivery by '
+              '-2..+2, metadata for a missing trial}, at first call or every call; 0..1 own ACTIVE, 0..1 REQUESTED, N 1..3')
+PROPS['C06'] = dict(
+    level='model_checking',
+    encoded=['VizierServicer.SuggestTrials/CheckTrialEarlyStoppingState/CompleteTrial', 'NestedDictRAMDataStore '
+             'operation tables', 'SuggestConverter/EarlyStopConverter', 'metadata_util'],
+    bounds=_C06_BOUND + '; one follow-up call',
+    outside='fault sequences longer than two calls; remote Pythia over real gRPC (C08 transport model)',
+    obligations=[
+        O('C06.suggest_fault_same_worker', 'harness.c06_faults', 'suggest_fault_same_worker', 300, 900,
+          'failure reported in a finished operation; no unfinished operation left; same worker reaches the algorithm again', _C06_BOUND),
+        O('C06.suggest_fault_other_worker', 'harness.c06_faults', 'suggest_fault_other_worker', 300, 900,
+          'another worker can still obtain suggestions', _C06_BOUND),
+        O('C06.suggest_fault_then_complete', 'harness.c06_faults', 'suggest_fault_then_complete', 300, 900,
+          'existing trials can still be completed; lifecycle invariants hold', _C06_BOUND),
+        O('C06.earlystop_fault', 'harness.c06_faults', 'earlystop_fault', 200, 600,
+          'failing early-stopping algorithm is reported and a later check reaches the algorithm again',
+          '5 exception classes, first/every call, ACTIVE/STOPPING trial, with/without an old finished operation'),
+    ])
